@@ -1408,9 +1408,22 @@ where
             }
         }
     }
+    // every call has returned: the view read now, before anything else is sent, is the view
+    let view_right_after = host.view().map(|v| v.log).ok();
     let residual = host.send_event(&Event::Noop);
     let mut tmp = Obs::default();
     host.observe(residual, &mut tmp);
+    if tmp.events.is_empty() && tmp.effects.is_empty() {
+        if let (Some(before), Ok(after)) = (&view_right_after, host.view().map(|v| v.log)) {
+            if *before != after {
+                findings.push((
+                    "concurrent/view-stale-after-all-calls-returned".into(),
+                    "the view read after every concurrent bridge call had returned differs from the view after one more no-op call that applied nothing".into(),
+                    json!({"events_in_view_right_after": before.len(), "events_in_view_after_noop": after.len()}),
+                ));
+            }
+        }
+    }
     if !tmp.effects.is_empty() {
         findings.push((
             "residual/effects-after-all-calls-returned".into(),
